@@ -215,6 +215,18 @@ func (fb *fileBuilder) printFieldStyle(name string, number int32, elem protorefl
 		return err
 	}
 
+	if field, ok := elem.(protoreflect.FieldDescriptor); ok && !field.IsExtension() {
+		if jsonName := field.JSONName(); jsonName != defaultJSONName(string(field.Name())) {
+			// a JSON name which is not the one derived from the field name
+			// is lost unless it is spelled out
+			options = append(options, parsedOption{
+				inline:        true,
+				inlineString:  proto.String(fmt.Sprintf("%q", jsonName)),
+				qualifiedName: "json_name",
+			})
+		}
+	}
+
 	fb.leadingComments(srcLoc)
 
 	if len(options) == 0 {
@@ -253,4 +265,24 @@ func (fb *fileBuilder) printFieldStyle(name string, number int32, elem protorefl
 	fb.trailingComments(srcLoc)
 
 	return nil
+}
+
+// defaultJSONName is the JSON name the proto compiler derives from a field
+// name when none is specified: underscores are dropped and the letter after
+// each is upper-cased.
+func defaultJSONName(name string) string {
+	var sb strings.Builder
+	upperNext := false
+	for _, r := range name {
+		if r == '_' {
+			upperNext = true
+			continue
+		}
+		if upperNext && r >= 'a' && r <= 'z' {
+			r -= 'a' - 'A'
+		}
+		upperNext = false
+		sb.WriteRune(r)
+	}
+	return sb.String()
 }
